@@ -313,7 +313,7 @@ AllowedChoices(s, r) ==
     LET v == Verdict(s, r) IN
     \* DTLS: a datagram that is incomplete, duplicated, out of order or fails authentication may be
     \* discarded silently (RFC 6347 4.1.2.7); "part" stands for that on DTLS sessions
-    IF s.cfg.dtls THEN (IF r.gen /\ ~r.free THEN {"good", "part"} ELSE Choices)
+    IF s.cfg.dtls THEN (IF r.gen /\ ~r.free THEN (IF r.it = "hs" THEN {"good", "bad", "part"} ELSE {"good", "part"}) ELSE Choices)
     ELSE IF s.desync THEN {"rlfail", "part"}
     ELSE IF v = "bad" THEN (IF r.frag THEN {"good", "part"} ELSE {"good"})
     ELSE IF v \in {"ignore", "plainalert"} THEN (IF r.gen THEN {"good"} ELSE IF r.frag THEN {"good", "bad", "part"} ELSE {"good", "bad"})
